@@ -115,7 +115,7 @@ Definition normalize_t (t : ttext) : ttext :=
 Definition body_tu (t : ttext) : list token :=
   csr_tokens (tt_csr t)
   ++ blocks n_beginbfchar n_endbfchar bfchar_entry (tt_singles t)
-  ++ blocks n_beginbfrange n_endbfrange bfrange_entry (tt_ranges t)
+  ++ flat_map (block n_beginbfrange n_endbfrange bfrange_entry) (range_chunks (tt_ranges t))
   ++ epilogue.
 
 Lemma header_tu t : read_header_tu (write_tokens_tu t) = Some (tt_parent t, tt_name t, body_tu t).
@@ -128,11 +128,11 @@ Definition info_tu (t : ttext) : cminfo :=
   CMInfo (tt_csr t) [] [] [] [] (ebfchars (tt_singles t)) (ebfranges (tt_ranges t)).
 
 Lemma body_tu_read t :
-  wf_ttext t -> blocks_depth_ok (tt_ranges t) ->
+  wf_ttext t -> lists_ok (tt_ranges t) ->
   read_blocks (length (body_tu t)) (body_tu t) mi_empty = Some (info_tu t, tl epilogue).
 Proof.
   intros (H1 & H2 & H3 & H4) Hd.
-  set (F := (1 + (length (chunks (tt_singles t)) + (length (chunks (tt_ranges t)) + 1)))%nat).
+  set (F := (1 + (length (chunks (tt_singles t)) + (length (range_chunks (tt_ranges t)) + 1)))%nat).
   apply (read_blocks_mono F).
   - unfold F, body_tu. cbn [Nat.add].
     rewrite read_csr_block by assumption.
@@ -142,7 +142,7 @@ Proof.
     reflexivity.
   - unfold F, body_tu, blocks. rewrite !app_length.
     pose proof (blocks_length_ge n_beginbfchar n_endbfchar bfchar_entry (chunks (tt_singles t))).
-    pose proof (blocks_length_ge n_beginbfrange n_endbfrange bfrange_entry (chunks (tt_ranges t))).
+    pose proof (blocks_length_ge n_beginbfrange n_endbfrange bfrange_entry (range_chunks (tt_ranges t))).
     assert (1 <= length (csr_tokens (tt_csr t)))%nat by (unfold csr_tokens; destruct (tt_csr t); cbn [length]; lia).
     cbn [epilogue length]. lia.
 Qed.
@@ -167,7 +167,7 @@ Proof.
 Qed.
 
 Lemma tounicode_text_rt_lemma t :
-  wf_ttext t -> blocks_depth_ok (tt_ranges t) -> read_tokens_tu (write_tokens_tu t) = Some (normalize_t t).
+  wf_ttext t -> lists_ok (tt_ranges t) -> read_tokens_tu (write_tokens_tu t) = Some (normalize_t t).
 Proof.
   intros Hwf Hd. unfold read_tokens_tu. rewrite header_tu, body_tu_read by assumption.
   change (tl epilogue) with (tl epilogue ++ []). rewrite expect_app.
@@ -177,22 +177,3 @@ Proof.
   rewrite conv_csr_id by (apply sort_by_forall; assumption). reflexivity.
 Qed.
 
-(* lists of at most 200 values always fit *)
-Lemma depth_ok_short (xs : list trange) : forall k,
-  k + N.of_nat (length xs) <= 100 ->
-  Forall (fun r : trange => (length (snd r) <= 200)%nat) xs -> depth_ok k xs = true.
-Proof.
-  induction xs as [|[[f l] vals] xs IH]; intros k Hk H; [reflexivity|].
-  inversion H as [|? ? Hv H']; subst. cbn [snd] in Hv. cbn [depth_ok length] in *.
-  rewrite IH by (auto; lia). rewrite andb_true_r.
-  destruct vals as [|v [|v2 vals]]; [|reflexivity|]; unfold max_operands; cbn [length] in *; lia.
-Qed.
-
-Lemma blocks_depth_ok_short (xs : list trange) :
-  Forall (fun r : trange => (length (snd r) <= 200)%nat) xs -> blocks_depth_ok xs.
-Proof.
-  intros H. unfold blocks_depth_ok.
-  pose proof (forall_chunks _ xs H) as Hc. pose proof (chunks_sizes xs) as Hs.
-  rewrite Forall_forall in *. intros c Hin. apply depth_ok_short; [|auto].
-  specialize (Hs c Hin). lia.
-Qed.
